@@ -219,6 +219,24 @@ func runC04(c *Ctx) {
 		}
 	}
 	inputs = append(inputs, c04targeted()...)
+	// field-level variations of corpus documents (kept when they still calculate)
+	{
+		pools := c11pools()
+		vr := c.Rand(77)
+		for _, it := range corpus.Golden() {
+			docB, err := gx.DocJSON(it.Data)
+			if err != nil {
+				continue
+			}
+			doc, err := jmut.Parse(docB)
+			if err != nil {
+				continue
+			}
+			for _, v := range c11variants(doc, pools, vr.IntN, c.N(12, 300)) {
+				inputs = append(inputs, c04input{Origin: it.Rel + "#field-variant", Data: v.Bytes(), Class: "corpus-variant"})
+			}
+		}
+	}
 	// regime × addon: the ES example re-homed to every regime with every addon
 	if b, err := os.ReadFile(filepath.Join(ev.Repo(), "examples/es/out/invoice-es-es.json")); err == nil {
 		doc, _ := gx.DocJSON(b)
